@@ -164,6 +164,7 @@ def run(tier):
     srcs = {i["id"]: i for i in allin}
     byid = {o["id"]: o for o in outs}
     viol, shapes = {}, {}
+    failed_inputs = set()
     nruns, ninputs, maxpolls = 0, 0, 0
     hist = {}
     for o in outs:
@@ -184,6 +185,9 @@ def run(tier):
                 if nid is not None and r["obs"].get("chain"):
                     shapes.setdefault((nid, tuple(errflow.shape_of(r["obs"]))), (o["id"], ep["name"], r["k"], r["kind"]))
                 for kind, detail in run_oracle(ep, r):
+                    failed_inputs.add(o["id"])
+                    if o["id"].startswith("witness:"):
+                        continue   # witnesses of recorded findings are judged below
                     viol.setdefault((kind, ep["name"]), dict(kind="oracle", oracle=kind, entry_point=ep["name"], input_id=o["id"], sql=srcs[o["id"]]["sql"],
                                     k=r["k"], ctx=r["kind"], detail=detail, chain=r["obs"].get("chain"), polls=ep["polls"]))
         ninputs += 1 if any_runs else 0
@@ -198,7 +202,6 @@ def run(tier):
         if k["status"] == "fixed" and fails:
             rp.violation({"kind": "oracle", "oracle": fails[0][2][0], "detail": fails[0][2][1], "entry_point": fails[0][0], "k": fails[0][1], "sql": w["sql"],
                           "explanation": "the defect fixed in %s is back: %s" % (k.get("commit"), k["what"])}, "regressed_" + k["key"])
-            viol = {kk: v for kk, v in viol.items() if v["input_id"] != "witness:" + k["key"]}
         if k["status"] == "known" and not fails and k["signature"].get("kind") != "input_shape":
             rp.cov["notes"].append("known finding %s: its witness no longer fails (stale entry)" % k["key"])
 
@@ -243,10 +246,10 @@ def run(tier):
             badi = common.parse_nlist(out)
             rp.obligation("correspondence: %d distinct (entry point, chain shape) pairs observed under cancellation are derivable from the poll sites and satisfy is_ctx (vm_compute)" % len(pairs),
                           not badi, str([shl[j] for j in badi][:2]))
-            for j in badi:
+            for j in badi[:3]:
                 sh = shl[j]
                 iid, epn, k, kd = shapes[(bysh[sh][0], sh)]
-                already = any(v["input_id"] == iid for v in viol.values())
+                already = iid in failed_inputs
                 rp.violation({"kind": "correspondence", "broken": "error chain observed under cancellation is not derivable from the site table as a context error",
                               "entry_point": epn, "shape": list(sh), "sql": srcs[iid]["sql"], "k": k, "ctx": kd}, "shape_%s_%d" % (re.sub(r"\W+", "_", epn), j), no_input=not already)
         else:
